@@ -149,6 +149,13 @@ typedef struct {
 	uint32_t nseg, segcap;
 } tape_t;
 
+/* optional mirror of the recorded tape in memory shared with a parent process, so that the
+ * tape survives the death of the process that draws it (crashrun) */
+static struct {
+	uint32_t *p;		/* p[0] = nvals, p[1] = nsegs, then values..., segment starts from the end */
+	uint32_t cap;
+} mirror;
+
 static void tape_push_val(tape_t *t, uint32_t x)
 {
 	if (t->n == t->cap) {
@@ -246,6 +253,22 @@ bool sim_replaying(void) { return R.replay; }
 bool sim_tracing(void) { return R.tracing; }
 uint64_t sim_event_no(void) { return R.events; }
 
+static void mirror_val(uint32_t v)
+{
+	if (mirror.p && mirror.p[0] + mirror.p[1] + 4 < mirror.cap) {
+		mirror.p[2 + mirror.p[0]] = v;
+		__atomic_store_n(&mirror.p[0], mirror.p[0] + 1, __ATOMIC_RELEASE);
+	}
+}
+
+static void mirror_seg(void)
+{
+	if (mirror.p && mirror.p[0] + mirror.p[1] + 4 < mirror.cap) {
+		mirror.p[mirror.cap - 1 - mirror.p[1]] = mirror.p[0];
+		__atomic_store_n(&mirror.p[1], mirror.p[1] + 1, __ATOMIC_RELEASE);
+	}
+}
+
 uint32_t sim_choose(uint32_t n)
 {
 	uint32_t v;
@@ -262,6 +285,7 @@ uint32_t sim_choose(uint32_t n)
 			v = 0;
 	}
 	tape_push_val(&R.rec, v);
+	mirror_val(v);
 	return v;
 }
 
@@ -287,6 +311,7 @@ uint32_t sim_bits32(void)
 void sim_seg(void)
 {
 	tape_push_seg(&R.rec);
+	mirror_seg();
 	if (R.replay) {
 		const tape_t *t = R.src;
 		R.src_seg++;
@@ -573,8 +598,9 @@ static int phdr_cb(struct dl_phdr_info *info, size_t size, void *arg)
 		if (ph->p_type == PT_GNU_RELRO) {
 			relro_lo = info->dlpi_addr + ph->p_vaddr;
 			relro_hi = relro_lo + ph->p_memsz;
+			/* exactly what ld.so write-protects: both ends rounded DOWN to a page */
 			relro_lo &= ~(uintptr_t)4095;
-			relro_hi = (relro_hi + 4095) & ~(uintptr_t)4095;
+			relro_hi &= ~(uintptr_t)4095;
 		}
 	}
 	for (int i = 0; i < info->dlpi_phnum; i++) {
@@ -917,6 +943,10 @@ static void run_begin(uint64_t index)
 	}
 	tape_clear(&R.rec);
 	tape_push_seg(&R.rec);
+	if (mirror.p) {
+		mirror.p[0] = mirror.p[1] = 0;
+		mirror_seg();
+	}
 	R.src_seg = 0;
 	R.src_pos = 0;
 	R.src_done = false;
@@ -1386,6 +1416,23 @@ static bool is_own_class(const char *cls)
 	return 0 == strncmp(cls, cfg.prop, n) && cls[n] == ':';
 }
 
+static volatile uint64_t *progress;
+
+static void open_progress(void)
+{
+	if (!cfg.out)
+		return;
+	char path[600];
+	snprintf(path, sizeof(path), "%s.progress", cfg.out);
+	int fd = open(path, O_RDWR | O_CREAT | O_TRUNC, 0644);
+	if (fd < 0 || ftruncate(fd, 8))
+		return;
+	void *p = mmap(NULL, 8, PROT_READ | PROT_WRITE, MAP_SHARED, fd, 0);
+	close(fd);
+	if (p != MAP_FAILED)
+		progress = p;
+}
+
 static int cmd_run(void)
 {
 	double t0 = now_s();
@@ -1403,10 +1450,13 @@ static int cmd_run(void)
 	char foreign_cls[160] = "";
 
 	load_known(cfg.known);
+	open_progress();
 
 	for (uint64_t i = cfg.worker; i < cfg.runs; i += cfg.workers) {
 		if (cfg.max_wall > 0 && now_s() - t0 > cfg.max_wall)
 			break;
+		if (progress)
+			*progress = i + 1;	/* the driver re-runs this index alone if the process dies */
 		run_record(i, false);
 		runs++;
 		tot_choices += R.rec.n;
@@ -1503,8 +1553,8 @@ static int cmd_run(void)
 			tape_copy(&best, &orig);
 			run_replay(&best, i, true);
 		}
-		snprintf(candidate, sizeof(candidate), "%s/%s-%s-%llu-%llu.json", cfg.replay_dir,
-			 cfg.prop, sim_harness.name, (unsigned long long)cfg.seed,
+		snprintf(candidate, sizeof(candidate), "%s/%s-%s-%s-%llu-%llu.json", cfg.replay_dir,
+			 cfg.prop, sim_harness.name, sim_harness.flavour, (unsigned long long)cfg.seed,
 			 (unsigned long long)i);
 		snprintf(cand_cls, sizeof(cand_cls), "%s", cls);
 		write_replay_file(candidate, &best, i, R.cls, R.msg, R.hash, &orig, shrink_evals);
@@ -1583,6 +1633,8 @@ static int cmd_run(void)
 	return rc;
 }
 
+static void child_class(const tape_t *t, char *out, size_t outsz);
+
 static int cmd_replay(const char *path)
 {
 	char *doc = slurp(path);
@@ -1604,6 +1656,18 @@ static int cmd_replay(const char *path)
 	snprintf(cfg.prop, sizeof(cfg.prop), "%s", prop);
 	cfg.thorough = 0 == strcmp(tier, "thorough");
 	cfg.seed = strtoull(seed, NULL, 10);
+	R.index = strtoull(index, NULL, 10);
+	if (strstr(cls, ":CRASH:child-signal-") || strstr(cls, ":SANITIZER:fatal")) {
+		/* this tape kills the process that runs it: replay it in a child */
+		char got[200];
+		child_class(&t, got, sizeof(got));
+		printf("replay: expected class %s\nreplay: got      class %s\n", cls, got[0] ? got : "(none)");
+		if (!strcmp(got, cls)) {
+			printf("REPRODUCED class=%s hash_match=yes\n", cls);
+			return 1;
+		}
+		return got[0] ? 1 : 0;
+	}
 	run_replay(&t, strtoull(index, NULL, 10), true);
 	if (cfg.trace)
 		fputs(R.trace.p ? R.trace.p : "", stdout);
@@ -1626,9 +1690,125 @@ static int cmd_replay(const char *path)
 	return 0;
 }
 
+/* class a tape produces when run in a forked child ("" = no violation) */
+static void child_class(const tape_t *t, char *out, size_t outsz)
+{
+	int fd[2];
+	out[0] = 0;
+	if (pipe(fd))
+		die("pipe");
+	fflush(NULL);
+	pid_t pid = fork();
+	if (pid < 0)
+		die("fork");
+	if (pid == 0) {
+		close(fd[0]);
+		alarm(60);
+		run_replay(t, R.index, false);
+		if (R.outcome == OUT_VIOLATION) {
+			ssize_t w = write(fd[1], R.cls, strlen(R.cls));
+			(void)w;
+		}
+		_exit(0);
+	}
+	close(fd[1]);
+	size_t n = 0;
+	for (;;) {
+		ssize_t r = read(fd[0], out + n, outsz - 1 - n);
+		if (r <= 0)
+			break;
+		n += r;
+	}
+	out[n] = 0;
+	close(fd[0]);
+	int st;
+	waitpid(pid, &st, 0);
+	if (n == 0 && WIFSIGNALED(st))
+		snprintf(out, outsz, "%s:CRASH:child-signal-%d", cfg.prop, WTERMSIG(st));
+	else if (n == 0 && WIFEXITED(st) && WEXITSTATUS(st) == 77)
+		snprintf(out, outsz, "%s:SANITIZER:fatal", cfg.prop);
+}
+
+/*
+ * The worker process died while running this index (killed by the kernel, fatal
+ * sanitizer error, stack smashed...).  Re-run it in a child that mirrors its tape
+ * into shared memory, take the tape prefix that led to the death, shrink, write
+ * the replay file.
+ */
+static int cmd_crashrun(uint64_t index)
+{
+	mirror.cap = 1u << 22;
+	mirror.p = mmap(NULL, mirror.cap * sizeof(uint32_t), PROT_READ | PROT_WRITE,
+			MAP_SHARED | MAP_ANONYMOUS, -1, 0);
+	if (mirror.p == MAP_FAILED)
+		die("mmap");
+	fflush(NULL);
+	pid_t pid = fork();
+	if (pid < 0)
+		die("fork");
+	if (pid == 0) {
+		alarm(120);
+		run_record(index, false);
+		_exit(R.outcome == OUT_VIOLATION ? 10 : 0);
+	}
+	int st;
+	waitpid(pid, &st, 0);
+	static tape_t t, best;
+	tape_clear(&t);
+	uint32_t nv = mirror.p[0], ns = mirror.p[1];
+	for (uint32_t i = 0, sg = 0; i <= nv; i++) {
+		while (sg < ns && mirror.p[mirror.cap - 1 - sg] == i) {
+			tape_push_seg(&t);
+			sg++;
+		}
+		if (i < nv)
+			tape_push_val(&t, mirror.p[2 + i]);
+	}
+	munmap(mirror.p, mirror.cap * sizeof(uint32_t));
+	mirror.p = NULL;
+	R.index = index;
+	char cls[200];
+	child_class(&t, cls, sizeof(cls));
+	if (!cls[0]) {
+		printf("crashrun: index %llu did not fail when re-run in a fresh child (status %d)\n",
+		       (unsigned long long)index, st);
+		return 0;
+	}
+	tape_copy(&best, &t);
+	shrink_evals = 0;
+	shrink(&best, cls, now_s() + 60);
+	char path[512];
+	snprintf(path, sizeof(path), "%s/%s-%s-%s-%llu-%llu.json", cfg.replay_dir, cfg.prop,
+		 sim_harness.name, sim_harness.flavour, (unsigned long long)cfg.seed,
+		 (unsigned long long)index);
+	tb_reset(&R.trace);
+	tb_printf(&R.trace, "(the run kills its process: no trace can be recorded)\n");
+	write_replay_file(path, &best, index, cls,
+			  "the process running this tape dies (signal or fatal sanitizer error)", 0, &t,
+			  shrink_evals);
+	printf("CANDIDATE class=%s replay=%s\n", cls, path);
+	return 1;
+}
+
+static const char *dump_path;
+
 static int cmd_one(uint64_t index)
 {
 	run_record(index, cfg.trace);
+	if (getenv("SIM_TWICE")) {
+		static tape_t t2;
+		tape_copy(&t2, &R.rec);
+		printf("first: outcome %d class '%s' hash %016llx\n", R.outcome, R.cls, (unsigned long long)R.hash);
+		run_replay(&t2, index, cfg.trace);
+		if (cfg.trace)
+			fputs(R.trace.p ? R.trace.p : "", stdout);
+		printf("second: outcome %d class '%s' hash %016llx\n", R.outcome, R.cls, (unsigned long long)R.hash);
+	}
+	if (dump_path) {
+		static tape_t t;
+		tape_copy(&t, &R.rec);
+		write_replay_file(dump_path, &t, index, R.cls[0] ? R.cls : "none", R.msg, R.hash, &t, 0);
+	}
 	if (cfg.trace)
 		fputs(R.trace.p ? R.trace.p : "", stdout);
 	printf("index %llu: outcome %d class '%s' msg '%s' hash %016llx ops %llu choices %u segs %u\n",
@@ -1670,6 +1850,7 @@ int sim_main(int argc, char **argv)
 		else if (!strcmp(a, "--max-wall")) { cfg.max_wall = atof(v); i++; }
 		else if (!strcmp(a, "--index")) { index = strtoull(v, NULL, 10); i++; }
 		else if (!strcmp(a, "--trace")) { cfg.trace = true; }
+		else if (!strcmp(a, "--dump")) { dump_path = v; i++; }
 		else if (a[0] != '-') { file = a; }
 		else die("unknown option %s", a);
 	}
@@ -1686,6 +1867,8 @@ int sim_main(int argc, char **argv)
 		return cmd_replay(file);
 	if (!strcmp(cmd, "one"))
 		return cmd_one(index);
+	if (!strcmp(cmd, "crashrun"))
+		return cmd_crashrun(index);
 	if (!strcmp(cmd, "hashes"))
 		return cmd_hashes();
 	fprintf(stderr,
